@@ -20,6 +20,24 @@ def _alarm(signum, frame):
 
 
 def guarded(fn, seconds=10):
+    """_guarded, made safe against the one race it has: a timer that expires while fn() is inside a long C-level
+    operation is delivered when that operation returns - possibly after fn() has returned, inside the `finally`
+    that cancels the timers.  The budget was used up in that case too: the call is reported as a Timeout (this
+    used to end the driver with an uncaught CallTimeout, i.e. a machinery failure)."""
+    try:
+        return _guarded(fn, seconds)
+    except CallTimeout:
+        pass
+    while True:
+        try:
+            signal.setitimer(signal.ITIMER_VIRTUAL, 0)
+            signal.setitimer(signal.ITIMER_REAL, 0)
+            return None, "Timeout"
+        except CallTimeout:
+            continue
+
+
+def _guarded(fn, seconds=10):
     """Run fn() under a limit of `seconds` of CPU time of this process (ITIMER_VIRTUAL: a library call
     that loops burns CPU and is stopped; a starved process on a loaded machine is NOT mistaken for a
     hanging call), with a generous wall-clock limit (20x) as a fallback for blocking calls.
